@@ -35,6 +35,81 @@ def writer_field(p):
     return fs[0]
 
 
+
+def rule_open_options(ctx, p, cfg, rid="R4"):
+    """how the file appender opens its file: created, writable, O_APPEND in append mode (every write lands at the end, whoever else
+    writes), truncated only in truncate mode"""
+    with ctx.rule(rid, "open options", cfg) as r:
+        b = p.fn(BUILD)
+        opn = b.call1("std::fs::OpenOptions::open", "OpenOptions::open")
+        opts = common.open_options(b, opn)
+        # the builder's flag: the field written by the public setter FileAppenderBuilder::append
+        setter = p.fn("append::file::FileAppenderBuilder::append")
+        flag_fields = set()
+        for blk in setter.blocks:
+            for s in blk["stmts"]:
+                if s["k"] == "assign" and s["lhs"]["l"] == 1 and s["lhs"]["p"] and "f" in s["lhs"]["p"][-1] \
+                        and strip(setter.expr(s["rv"]["a"]) if s["rv"]["k"] == "use" else ("other",)) == ("param", 2):
+                    flag_fields.add(s["lhs"]["p"][-1]["f"])
+        if len(flag_fields) != 1:
+            raise ShapeUnrecognised("cannot identify the builder's append flag (setter writes %s)" % flag_fields)
+        flag = ("field", ("param", 1), flag_fields.pop())
+
+        def table(name):
+            vals = opts.get(name)
+            if not vals:
+                return None
+            out = {}
+            for fv in (False, True):
+                res = set()
+                for e in vals[-1:]:
+                    atoms = q.bool_atoms(e)
+                    others = [a for a in atoms if a != flag]
+                    import itertools
+                    for ov in itertools.product([False, True], repeat=len(others)):
+                        env = dict(zip(others, ov))
+                        env[flag] = fv
+                        res |= q.eval_bool(e, env)
+                out[fv] = res
+            return out
+        t_create, t_write, t_append, t_trunc = table("create"), table("write"), table("append"), table("truncate")
+        r.require(t_create is not None and t_create[True] == {True} and t_create[False] == {True}, "create-true", fn=b, site=opn.at,
+                  detail="create(..) table over flag: %s" % t_create)
+        writable = all(((t_write or {}).get(fv) == {True}) or ((t_append or {}).get(fv) == {True}) for fv in (False, True))
+        r.require(writable, "writable", fn=b, site=opn.at, detail="write=%s append=%s" % (t_write, t_append))
+        r.require(t_append is not None and t_append[True] == {True}, "append-mode-appends", fn=b, site=opn.at,
+                  detail="with the builder flag true the file is opened with append(true): %s" % t_append)
+        r.require(t_trunc is None or t_trunc[True] == {False}, "append-mode-keeps-content", fn=b, site=opn.at,
+                  detail="with the builder flag true truncate is false: %s" % t_trunc)
+        r.require(t_trunc is not None and t_trunc[False] == {True}, "truncate-mode-truncates", fn=b, site=opn.at,
+                  detail="with the builder flag false truncate is true: %s" % t_trunc)
+        # same path for create_dir_all(parent) and open
+        pth = deep_strip(opn.arg(1))
+        cda = b.calls("std::fs::create_dir_all")
+        r.require(len(cda) == 1, "one-create-dir-all", fn=b, detail="create_dir_all sites: %d" % len(cda))
+        for c in cda:
+            a = c.arg(0)
+            par = [x for x in calls_in(a, "std::path::Path::parent")]
+            same = bool(par) and deep_strip(par[0][2][0]) == pth
+            r.require(same, "dir-of-opened-path", fn=b, site=c.at,
+                      detail="create_dir_all(%s) is the parent of the opened path %s" % (show(a, 5), show(pth, 4)))
+            r.require(not b.can_reach(opn.block, c.block) and b.can_reach(c.block, opn.block), "dir-before-open", fn=b, site=c.at, detail="directory creation precedes open")
+        # truncation happens at open time only
+        cone = p.cone([APPEND], cut_traits=("encode::Encode",))
+        tr = p.all_calls("std::fs::OpenOptions::truncate", within=cone)
+        r.require(not tr, "no-truncate-from-append", detail="OpenOptions::truncate call sites reachable from Append::append: %s (cone of %d fns, cut at dyn Encode)" % ([c.fn.path for c in tr], len(cone)))
+        # the opened file is the one put under the mutex
+        agg = p.aggregates(ADT)
+        if agg:
+            fobj = agg[0]
+            e = b._rvalue(fobj[3], frozenset(), 40, fobj[1])
+            wf = writer_field(p)
+            fe = [v for n, v in e[3] if n == wf["name"]]
+            has_open = bool(fe) and any(x[0] == "call" and x[1] == "std::fs::OpenOptions::open" for x in walk(fe[0]))
+            r.require(has_open, "opened-file-is-the-writer", fn=b, detail="FileAppender.%s is built from the opened file: %s" % (wf["name"], show(fe[0], 5) if fe else None))
+
+    common.w1_forwarders(ctx, p, cfg, ["encode::writer::simple::SimpleWriter<W>"])
+
 def run_cfg(ctx, p, cfg):
     from rules import accessors
     accessors.rule_fidelity(ctx, p, cfg, "R6", prefix="append::file::", floor=2, with_build=False)   # what the builder is told (append or truncate, the encoder) is what it keeps: a setter stores its argument and touches nothing else
@@ -127,73 +202,4 @@ def run_cfg(ctx, p, cfg):
         r.require(len(opens) == 1 and opens[0].fn.path == BUILD, "single-open-site",
                   detail="OpenOptions::open sites in append::file: %s" % [c.fn.path for c in opens])
 
-    with ctx.rule("R4", "open options", cfg) as r:
-        b = p.fn(BUILD)
-        opn = b.call1("std::fs::OpenOptions::open", "OpenOptions::open")
-        opts = common.open_options(b, opn)
-        # the builder's flag: the field written by the public setter FileAppenderBuilder::append
-        setter = p.fn("append::file::FileAppenderBuilder::append")
-        flag_fields = set()
-        for blk in setter.blocks:
-            for s in blk["stmts"]:
-                if s["k"] == "assign" and s["lhs"]["l"] == 1 and s["lhs"]["p"] and "f" in s["lhs"]["p"][-1] \
-                        and strip(setter.expr(s["rv"]["a"]) if s["rv"]["k"] == "use" else ("other",)) == ("param", 2):
-                    flag_fields.add(s["lhs"]["p"][-1]["f"])
-        if len(flag_fields) != 1:
-            raise ShapeUnrecognised("cannot identify the builder's append flag (setter writes %s)" % flag_fields)
-        flag = ("field", ("param", 1), flag_fields.pop())
-
-        def table(name):
-            vals = opts.get(name)
-            if not vals:
-                return None
-            out = {}
-            for fv in (False, True):
-                res = set()
-                for e in vals[-1:]:
-                    atoms = q.bool_atoms(e)
-                    others = [a for a in atoms if a != flag]
-                    import itertools
-                    for ov in itertools.product([False, True], repeat=len(others)):
-                        env = dict(zip(others, ov))
-                        env[flag] = fv
-                        res |= q.eval_bool(e, env)
-                out[fv] = res
-            return out
-        t_create, t_write, t_append, t_trunc = table("create"), table("write"), table("append"), table("truncate")
-        r.require(t_create is not None and t_create[True] == {True} and t_create[False] == {True}, "create-true", fn=b, site=opn.at,
-                  detail="create(..) table over flag: %s" % t_create)
-        writable = all(((t_write or {}).get(fv) == {True}) or ((t_append or {}).get(fv) == {True}) for fv in (False, True))
-        r.require(writable, "writable", fn=b, site=opn.at, detail="write=%s append=%s" % (t_write, t_append))
-        r.require(t_append is not None and t_append[True] == {True}, "append-mode-appends", fn=b, site=opn.at,
-                  detail="with the builder flag true the file is opened with append(true): %s" % t_append)
-        r.require(t_trunc is None or t_trunc[True] == {False}, "append-mode-keeps-content", fn=b, site=opn.at,
-                  detail="with the builder flag true truncate is false: %s" % t_trunc)
-        r.require(t_trunc is not None and t_trunc[False] == {True}, "truncate-mode-truncates", fn=b, site=opn.at,
-                  detail="with the builder flag false truncate is true: %s" % t_trunc)
-        # same path for create_dir_all(parent) and open
-        pth = deep_strip(opn.arg(1))
-        cda = b.calls("std::fs::create_dir_all")
-        r.require(len(cda) == 1, "one-create-dir-all", fn=b, detail="create_dir_all sites: %d" % len(cda))
-        for c in cda:
-            a = c.arg(0)
-            par = [x for x in calls_in(a, "std::path::Path::parent")]
-            same = bool(par) and deep_strip(par[0][2][0]) == pth
-            r.require(same, "dir-of-opened-path", fn=b, site=c.at,
-                      detail="create_dir_all(%s) is the parent of the opened path %s" % (show(a, 5), show(pth, 4)))
-            r.require(not b.can_reach(opn.block, c.block) and b.can_reach(c.block, opn.block), "dir-before-open", fn=b, site=c.at, detail="directory creation precedes open")
-        # truncation happens at open time only
-        cone = p.cone([APPEND], cut_traits=("encode::Encode",))
-        tr = p.all_calls("std::fs::OpenOptions::truncate", within=cone)
-        r.require(not tr, "no-truncate-from-append", detail="OpenOptions::truncate call sites reachable from Append::append: %s (cone of %d fns, cut at dyn Encode)" % ([c.fn.path for c in tr], len(cone)))
-        # the opened file is the one put under the mutex
-        agg = p.aggregates(ADT)
-        if agg:
-            fobj = agg[0]
-            e = b._rvalue(fobj[3], frozenset(), 40, fobj[1])
-            wf = writer_field(p)
-            fe = [v for n, v in e[3] if n == wf["name"]]
-            has_open = bool(fe) and any(x[0] == "call" and x[1] == "std::fs::OpenOptions::open" for x in walk(fe[0]))
-            r.require(has_open, "opened-file-is-the-writer", fn=b, detail="FileAppender.%s is built from the opened file: %s" % (wf["name"], show(fe[0], 5) if fe else None))
-
-    common.w1_forwarders(ctx, p, cfg, ["encode::writer::simple::SimpleWriter<W>"])
+    rule_open_options(ctx, p, cfg, "R4")
